@@ -78,11 +78,16 @@ def run_tlc(module, cfg, workers=4, timeout=1800, tag=None, dfs=False, xmx=None,
         jopts += " -XX:ParallelGCThreads=2 -Dtlc2.tool.queue.IStateQueue=StateDeque"
     if xmx:
         jopts += " -Xmx" + xmx
+    meta = os.path.join(WORK, "meta-" + tag)
+    shutil.rmtree(meta, ignore_errors=True)
+    # TLC's scratch directories (java.io.tmpdir/tlc-*) go inside the metadir, which is removed below
+    jtmp = os.path.join(WORK, "jtmp-" + tag)
+    shutil.rmtree(jtmp, ignore_errors=True)
+    os.makedirs(jtmp, exist_ok=True)
+    jopts += " -Djava.io.tmpdir=" + jtmp
     env = {"JAVA_TOOL_OPTIONS": jopts}
     if trace:
         env["TRACE"] = trace
-    meta = os.path.join(WORK, "meta-" + tag)
-    shutil.rmtree(meta, ignore_errors=True)
     cmd = ["timeout", str(timeout), "tlc", "-workers", str(workers), "-metadir", meta,
            "-cleanup", "-noGenerateSpecTE"]
     if simulate:
@@ -93,6 +98,7 @@ def run_tlc(module, cfg, workers=4, timeout=1800, tag=None, dfs=False, xmx=None,
     t = time.time()
     p = sh(cmd, cwd=SPEC, env=env, check=False)
     shutil.rmtree(meta, ignore_errors=True)
+    shutil.rmtree(jtmp, ignore_errors=True)
     out = p.stdout
     if p.returncode == 124:
         raise ToolError("TLC timeout after %ds: %s %s" % (timeout, module, cfg))
